@@ -5,6 +5,7 @@ import (
 	"go/ast"
 	"go/constant"
 	"go/token"
+	"sort"
 	"strings"
 )
 
@@ -39,6 +40,9 @@ func init() {
 			[]string{"c.finalize", "controllerutil.AddFinalizer", "kubeClient.Patch", "reconciler.Reconcile", "Status().Patch"})
 		g.callSeq("Finalize", term, "Controller.awaitInstanceTermination", "instanceStageCalls",
 			[]string{"cloudProvider.Delete", "cloudprovider.IgnoreNodeClaimNotFoundError", "SetTrue", "cloudprovider.IsNodeClaimNotFoundError"})
+		c09ObjectReads(g, term, []string{"filterVolumeAttachments", "Controller.pendingVolumeAttachments", "Controller.awaitVolumeDetachment"},
+			"VolumeAttachment", "vaFilterReads",
+			"what the volume-detachment stage reads of a single VolumeAttachment (selector paths rooted at a value of type *storagev1.VolumeAttachment, sorted): an attachment blocks or not by these alone - in particular not by its deletionTimestamp, finalizers or status")
 	})
 }
 
@@ -175,6 +179,86 @@ func c09Requeues(g *gen, pkgPath, fn, lean string) {
 			b.WriteString(", ")
 		}
 		fmt.Fprintf(b, "%d", v)
+	}
+	b.WriteString("]\n\n")
+}
+
+// c09ObjectReads: the selector paths (maximal chains, e.g. `Spec.Source.PersistentVolumeName`) rooted at an identifier
+// whose type is (a pointer to) the named struct type `typeName`, inside the given functions; sorted, without duplicates.
+func c09ObjectReads(g *gen, pkgPath string, fns []string, typeName, lean, doc string) {
+	seen := map[string]bool{}
+	where := ""
+	for _, fn := range fns {
+		p, fd := g.findFunc(pkgPath, fn)
+		if fd == nil {
+			return
+		}
+		if where == "" {
+			where = g.pos(fd.Pos())
+		}
+		inner := map[ast.Expr]bool{} // selector expressions that are the operand of a longer chain
+		ast.Inspect(fd.Body, func(n ast.Node) bool {
+			if se, ok := n.(*ast.SelectorExpr); ok {
+				if x, ok := se.X.(*ast.SelectorExpr); ok {
+					inner[x] = true
+				}
+			}
+			return true
+		})
+		ast.Inspect(fd.Body, func(n ast.Node) bool {
+			se, ok := n.(*ast.SelectorExpr)
+			if !ok || inner[se] {
+				return true
+			}
+			var path []string
+			var cur ast.Expr = se
+			for {
+				s, ok := cur.(*ast.SelectorExpr)
+				if !ok {
+					break
+				}
+				path = append([]string{s.Sel.Name}, path...)
+				cur = s.X
+			}
+			// the root: an identifier, possibly dereferenced / parenthesised
+			for {
+				switch r := cur.(type) {
+				case *ast.ParenExpr:
+					cur = r.X
+					continue
+				case *ast.StarExpr:
+					cur = r.X
+					continue
+				}
+				break
+			}
+			id, ok := cur.(*ast.Ident)
+			if !ok {
+				return true
+			}
+			tv, ok := p.TypesInfo.Types[id]
+			if !ok || tv.Type == nil {
+				return true
+			}
+			ts := tv.Type.String()
+			if strings.HasSuffix(ts, "."+typeName) && !strings.HasPrefix(ts, "[]") {
+				seen[strings.Join(path, ".")] = true
+			}
+			return true
+		})
+	}
+	var paths []string
+	for k := range seen {
+		paths = append(paths, k)
+	}
+	sort.Strings(paths)
+	b := g.out("Finalize")
+	fmt.Fprintf(b, "/-- %s (%s: %s, %s) -/\ndef %s : List String := [", doc, pkgPath, strings.Join(fns, ", "), where, lean)
+	for i, s := range paths {
+		if i > 0 {
+			b.WriteString(", ")
+		}
+		b.WriteString(leanStr(s))
 	}
 	b.WriteString("]\n\n")
 }
